@@ -708,7 +708,7 @@ TOP:
 			case 2: // assume (interface{}, error) return
 				value = mva[0].Interface()
 				if err, _ = mva[1].Interface().(error); err != nil {
-					ea = append(ea, resWarn(field.line, field.col, "%s", err))
+					ea = root.addError(field, ea, err)
 				}
 			default:
 				ea = append(ea, resWarn(field.line, field.col, "%T.%s returned more than 2 values", obj, field.Name))
